@@ -96,7 +96,7 @@ check('C14', 'provenance analysis of every value stored into a pointer field / h
 
 check('C15', 'per-language-standard analysis of the instantiated memory algorithms: all-paths-return (path engine), typestate clean-up rule on the construct loops, construct-before-destroy ordering, byte-copy who-may-call, compile-time signature witnesses, cross-standard effect-signature comparison',
       'Decides for c++11/14/17/20 (different implementations selected) that every algorithm returns on all paths with the standard result type, destroys its partial output on throw, relocates as construct-then-destroy with the sources alive until all constructs succeeded, and byte-copies only when the trait allows.',
-      'Also: ADVANCE, EMUL-EFFECT (incl. value- vs default-initialisation from the initialisation style of the new-expressions), CURSOR, SAMETYPE (byte copies only between equal value types; cross-type copies instantiated), CONTIG (a multi-element byte copy takes both addresses from raw pointers: random access is not contiguity; reverse_iterator instantiated), DIRECT-INIT / CTOR-FWD (construct_at direct-initialises with perfectly forwarded arguments in every standard). Partial: value equality of the constructed objects is not decided.',
+      'Also: ADVANCE, EMUL-EFFECT (incl. value- vs default-initialisation from the initialisation style of the new-expressions), CURSOR, SAMETYPE (byte copies only between equal value types; cross-type copies instantiated), MEMALG-LAYOUT (each algorithm with its own body, raw-pointer instantiations: interpreted over an abstract source / destination range with a symbolic count - implementation modes inlined, memcpy / placement new / construct_at as transformers - the destination holds exactly the n source elements in order, the sources are untouched / alive / gone as specified, the returned positions are the standard ones), CONTIG (a multi-element byte copy takes both addresses from raw pointers: random access is not contiguity; reverse_iterator instantiated), DIRECT-INIT / CTOR-FWD (construct_at direct-initialises with perfectly forwarded arguments in every standard). Partial: value equality of the constructed objects is not decided.',
       'DESIGN.md section 4, C15')
 
 check('C16', 'cross-configuration comparison of the instantiated program (structural hashes of every function body, API tables, effect signatures) over the lattice {c++11..20} x {extras on/off} x {NDEBUG on/off} + assert-purity + detection-idiom and constant witnesses',
